@@ -29,7 +29,9 @@ def main():
     opts = {a.split('=')[0]: (a.split('=')[1] if '=' in a else True) for a in sys.argv[1:] if a.startswith('--')}
     pid = args[0]
     suf = args[1] if len(args) > 1 else ''
-    out = f'/tmp/seed/{pid}.out'
+    base = opts.get('--dir', '/tmp/seed')
+    tag = opts.get('--tag', '')
+    out = f'{base}/{pid}.out'
     patch = f'{out}/patch{suf}.diff'
     meta = json.load(open(f'{out}/meta{suf}.json'))
     demo = meta.get('demo', {})
@@ -109,7 +111,7 @@ def main():
         result['checks'][c] = {'tier': tier, 'exit': exitl[-1] if exitl else 'EXIT=?', 'signatures': sigs[:8],
                                'fault': [l for l in o.splitlines() if 'HARNESS-FAULT' in l][:2]}
     if ok:
-        dst = f'/verif/seeded/{pid}{("-" + suf) if suf else ""}'
+        dst = f'/verif/seeded/{pid}{("-" + tag) if tag else ""}{("-" + suf) if suf else ""}'
         os.makedirs(dst, exist_ok=True)
         shutil.copy(patch, f'{dst}/patch.diff')
         for f in demofiles:
